@@ -29,6 +29,9 @@ ill-formed result for some operand:
  R8 singleton stride: a result whose bounds come from a non-injective primitive (multiplication:
     a zero factor collapses the product interval to one value) must not take its stride from the
     operand strides without a start==end test -- "stride 0 exactly for singletons"
+ R9 overflow detection idiom: the signed multiplication helper detects overflow by dividing the product back
+    (`(a*b) sdiv a != b`); in two's complement that misses a = -1, b = MIN (product and quotient both wrap), so the
+    pair must be treated separately (or the product computed in wider arithmetic)
 """
 from .lib import cond as C
 from .lib import sym as S
@@ -594,3 +597,39 @@ def run(run):
         run.floor("R8 results built from non-injective primitives", n, 1)
 
     run.guarded("R8", r8)
+
+
+_run_r1_r8 = run
+
+
+def run(run):  # noqa: F811
+    _run_r1_r8(run)
+    F = run.facts()
+    run.rule("R9", "signed multiplication overflow detection handles -1 * MIN (division-back idiom)")
+
+    def r9():
+        fn = F.fn("signed_mult_with_overflow_flag", file="intermediate_representation/bitvector.rs", trait="BitvectorExtended")
+        t = S.Sym(F).term(fn["body"])
+        site = F.loc(fn["body"])
+        MUL = ("into_checked_mul", "into_wrapping_mul", "checked_mul_assign", "mul")
+        DIV = ("into_checked_sdiv", "into_wrapping_sdiv", "checked_sdiv_assign")
+        backs = []
+        for x in sub(t):
+            if is_call(x, ("ne", "eq")) and len(x[2]) == 2:
+                for a in x[2]:
+                    divs = [d for d in sub(a) if is_call(d, DIV)]
+                    if divs and any(is_call(m, MUL) for d in divs for m in sub(d[2][0])):
+                        backs.append(x)
+        if not backs:
+            run.holds("R9", "signed_mult_with_overflow_flag|division-back", "overflow is not detected by dividing the product back (no such idiom found)", site)
+            return
+        # the idiom `(a * b) / a != b` misses a = -1, b = MIN: the product wraps to MIN and MIN / -1 wraps to MIN == b.
+        guards = [x for x in sub(t) if is_call(x, ("signed_min_value", "is_signed_min", "is_min"))]
+        wide = [x for x in sub(t) if is_call(x, ("into_sign_extend", "into_sign_resize", "try_to_i128", "try_to_i64"))]
+        if guards or wide:
+            run.holds("R9", "signed_mult_with_overflow_flag|division-back", "the -1 * MIN case is treated separately (%s)" % ("guard on the signed minimum" if guards else "wider arithmetic"), site)
+        else:
+            run.violated("R9", "signed_mult_with_overflow_flag|division-back", "overflow of a signed multiplication is detected only by `(self * rhs) sdiv self != rhs`; for self = -1 and rhs = MIN the product wraps to MIN and `MIN sdiv -1` wraps to MIN as well, so the flag stays false: "
+                         "Interval::signed_mul then takes the wrapped corner product as a bound (e.g. 1-byte [-1,1] * [-128] = {-128}, which misses 0 * -128 = 0)", site)
+
+    run.guarded("R9", r9)
